@@ -49,6 +49,11 @@ def intactEntries (f : Bytes) : List (Nat × Nat × Nat) :=
         some (i, digitsVal (line.take 10), digitsVal ((line.drop 11).take 5))
       else none
 
+def lastXrefPos (b : Bytes) (i : Nat) (best : Option Nat) : Option Nat :=
+  match b with
+  | [] => best
+  | _ :: r => lastXrefPos r (i + 1) (if startsWith b (ascii "xref\n0 ") then some i else best)
+
 def parseDump (s : String) : String × List (String × String) :=
   match s.splitOn ";" with
   | [c, r] => (c, (r.splitOn ",").filterMap fun kv => match kv.splitOn "=" with
@@ -110,37 +115,64 @@ def handle (req impl : String) : String × String :=
           match od.find? (·.1 = k) with
           | some (_, v') => if v = v' then none else some k
           | none => some k
+        -- where the intact file's cross-reference section starts (objects lie before it)
+        let bodyEnd : Nat := (lastXrefPos intact 0 none).getD intact.length
+        -- a recovered offset that is no true header offset but lies inside the body: the scan took
+        -- a line of stream / string / comment data for a header
+        -- the scan reports the start of the line, the table the first digit: blanks may lie between
+        let sameHeader := fun (roff toff : Nat) =>
+          decide (roff ≤ toff) && ((intact.drop roff).take (toff - roff)).all fun c => c = 32 || c = 9
+        let isFalseHeader := fun (n : Nat) =>
+          match truth.find? (·.1 = n), es.find? (·.1 = n) with
+          | some (_, toff, _), some (_, roff, _) =>
+            !sameHeader roff toff && decide (roff < bodyEnd) && !(truth.any fun (_, o, _) => sameHeader roff o)
+          | _, _ => false
+        let anyFalse : Bool := imode = "recovery" && truth.any fun (n, _, _) => isFalseHeader n
+        -- a true header that does not start its line (`endobj 5 0 obj`): the line-based scan cannot see it
+        let notAtLineStart := fun (toff : Nat) =>
+          let before := ((intact.take toff).reverse).dropWhile fun c => c = 32 || c = 9
+          match before with
+          | [] => false
+          | c :: _ => !isEol c
+        let isMissed := fun (n : Nat) =>
+          match truth.find? (·.1 = n) with
+          | some (_, toff, _) =>
+            notAtLineStart toff && (match es.find? (·.1 = n) with
+              | some (_, roff, _) => !sameHeader roff toff
+              | none => true)
+          | none => false
+        let anyMissed : Bool := imode = "recovery" && truth.any fun (n, _, _) => isMissed n
+        -- the intact trailer's /Root
+        let rootNum : Nat :=
+          match findSub (ascii "/Root ") intact 0 with
+          | some p => digitsVal (takeDigits (intact.drop (p + 6))).1
+          | none => 0
+        -- the catalog search of the recovery picked another object than the file's catalog
+        let wrongRoot : Bool := imode = "recovery" && _iroot ≠ toString rootNum
         let classOf := fun (k : String) =>
           let n := ((k.splitOn ".").headD "").toNat?.getD 0
           if imode = "primary" then "damaged-table-accepted-without-reconstruction"
-          else
-            match truth.find? (·.1 = n), es.find? (·.1 = n) with
-            | some (_, toff, _), some (_, roff, _) =>
-              if toff ≠ roff then "scan-picked-a-false-header" else "other"
-            | _, _ => "other"
-        let rootGenNonZero : Bool :=
-          match findSub (ascii "/Root ") intact 0 with
-          | some p =>
-            let b := intact.drop (p + 6)
-            let (_, r1) := takeDigits b
-            let (g, _) := takeDigits (r1.drop 1)
-            digitsVal g ≠ 0
-          | none => false
+          else if isMissed n then "header-not-at-line-start-missed"
+          else if isFalseHeader n then "scan-picked-a-false-header"
+          else if anyFalse || anyMissed then "follows-false-header"
+          else "other"
         let classes := diffs.map classOf
         let classes := classes ++
-          (if ci = cd then [] else
+          (if ci = cd ∧ pagesOk then [] else
             if imode = "primary" then ["damaged-table-accepted-without-reconstruction"]
-            else if classes.contains "scan-picked-a-false-header" then ["scan-picked-a-false-header"]
-            else if rootGenNonZero then ["recovery-assumes-generation-0-for-the-catalog"] else ["catalog-differs"]) ++
-          (if pagesOk then [] else
-            if imode = "primary" then ["damaged-table-accepted-without-reconstruction"]
-            else if classes.contains "scan-picked-a-false-header" then ["scan-picked-a-false-header"]
-            else if rootGenNonZero then ["recovery-assumes-generation-0-for-the-catalog"] else ["page-count-differs"])
+            else if anyMissed then ["header-not-at-line-start-missed"]
+            else if anyFalse then ["scan-picked-a-false-header"]
+            else if wrongRoot then ["catalog-search-picked-wrong-object"]
+            else [if ci = cd then "page-count-differs" else "catalog-differs"])
+        let classes := classes.filter (· ≠ "follows-false-header")
+        -- generation numbers other than 0 do not occur in a never-updated file (ISO 32000-1
+        -- §7.5.4): outside the class of files the property speaks about
+        let outOfClass : Bool := truth.any fun (_, _, g) => g ≠ 0
         let uniq := (classes.foldl (fun acc x => if acc.contains x then acc else acc ++ [x]) []).toArray.qsort (· < ·) |>.toList
         let detail := match diffs with
           | k :: _ => s!" obj={k}"
           | [] => ""
-        if ops = "none" then (model, "na")
+        if ops = "none" ∨ outOfClass then (model, "na")
         else if uniq.isEmpty then (model, "ok")
         else (model, "fail:" ++ "+".intercalate uniq ++ detail)
       | _ => (impl, "fail:unparsable-answer")
